@@ -129,6 +129,15 @@ CHECKS = {
         note="domains as documented (closed boxes, open (0,inf)/(-1,1)); couplings restrict only transformed features",
         ref="DESIGN.md 4/C17",
     ),
+    "C18": dict(
+        technique="bounded-exhaustive enumeration of the call-argument space (num_samples x batch_size x context rows x illegal arguments) on every distribution/flow configuration, with a tagging seam on torch.randn that makes every draw traceable",
+        text="For every distribution and flow configuration, sample / sample_and_log_prob / log_prob are called with num_samples in {1,2,3,5}, batch_size in {None,1,2,3,5,7} (dividing and not "
+        "dividing) and 0..3 context rows; shapes must be [n,...] / [rows,n,...] / [rows]; torch.randn hands out successive distinct tagged items, and every returned draw must map back "
+        "(transform_to_noise under its own context row, or base standardisation) to a distinct injected item, which pins block i to context row i also for batched generation. Non-positive or "
+        "non-integer counts must raise TypeError and a context with a different row count ValueError.",
+        note="float32 (library default); trace-back for StandardNormal, flows with a StandardNormal base and ConditionalDiagonalNormal; shape contract only for Bernoulli and the MADE mixture",
+        ref="DESIGN.md 4/C18",
+    ),
     "C19": dict(
         technique="bounded-exhaustive product exploration; oracle = float64 twin of the same model with a measured-conditioning accuracy band",
         text="Every transform (both directions) and every flow/distribution log_prob is evaluated in float32 on the float32-rounded C01/C02 row alphabets for every configuration "
